@@ -2,12 +2,14 @@ package props
 
 import (
 	"bytes"
+	"encoding/hex"
 	"fmt"
 	"math/rand"
 	"os"
 	"path/filepath"
 	"reflect"
 	"regexp"
+	"sort"
 	"strings"
 	"sync"
 
@@ -59,11 +61,18 @@ func c02GoSummary(file []byte) (string, error) {
 }
 
 func RunC02(ctx *core.Ctx) {
-	ctx.SetRule("files written from catalogue struct types under random configurations (page version, codec, page/row-group/dictionary limits, statistics, bloom filters), by GenericWriter, by a writer reused through Reset, and through WriteRowGroup from a file or a buffer; each file is parsed by the Lean spec reader (thrift compact, footer, page headers at the announced offsets, offset/column index) which re-derives the layout numbers with the proved accounting model; non-trivial = more than one page in some chunk or more than one row group")
+	ctx.SetRule("files written from catalogue struct types under random configurations (page version, codec (40 % of the cases force none or snappy file-wide; fields keep their own codec/encoding tags), page/row-group/dictionary limits, statistics, bloom filters), by GenericWriter, by a writer reused through Reset, and through WriteRowGroup from a file or a buffer; each file is parsed by the Lean spec reader (thrift compact, footer, page headers at the announced offsets, offset/column index) which re-derives the layout numbers with the proved accounting model and, for uncompressed and snappy chunks, decompresses (spec Snappy reader) and decodes every page with the spec decoders (levels, dictionary, PLAIN/RLE/DELTA_*/BYTE_STREAM_SPLIT values) comparing decoded counts with the headers and indexes; the decoded Dremel streams (file.dump) are compared column by column with the reference shredder's streams of the rows written (columns with a chunk in another codec are skipped and counted); non-trivial = more than one page in some chunk or more than one row group")
 	tmp := filepath.Join(".build", "tmp", fmt.Sprintf("c02-%s-%d", ctx.Variant, os.Getpid()))
 	os.MkdirAll(tmp, 0o755)
 	defer os.RemoveAll(tmp)
 	ncases := ctx.Scale(6, 80)
+	// recorded files first: library-written files of shapes the catalogue does not reach, with a
+	// hand-computed expected dump (corpus/C02/values-*.case)
+	if cd := ctx.Driver(); cd != nil {
+		for _, cf := range ctx.CorpusFiles() {
+			c02Corpus(ctx, cd, cf, tmp)
+		}
+	}
 	var wg sync.WaitGroup
 	sem := make(chan struct{}, 16)
 	for _, e := range gen.Catalog {
@@ -97,6 +106,14 @@ func RunC02(ctx *core.Ctx) {
 					opts = append(append([]parquet.WriterOption{}, opts...), parquet.BloomFilters(fs...))
 					desc += " bloom"
 				}
+				// value-level agreement covers uncompressed and snappy chunks: force one of the two
+				// file-wide in 40 % of the cases (a later option overrides the earlier one; fields
+				// carrying their own codec tag keep it)
+				if x := r.Intn(10); x < 4 {
+					name := []string{"none", "snappy"}[x%2]
+					opts = append(append([]parquet.WriterOption{}, opts...), parquet.Compression(gen.Codecs[name]))
+					desc += " filecodec=" + name
+				}
 				mode := []string{"direct", "direct", "reset-reuse", "copy-from-file", "copy-from-buffer"}[r.Intn(5)]
 				file, err := c02Write(e, rows, mode, opts, c01Batches(r, n), r)
 				detail := map[string]any{"type": e.Name, "config": desc, "mode": mode, "rows": n, "seed_stream": "c02/" + e.Name, "case_index": k}
@@ -110,12 +127,13 @@ func RunC02(ctx *core.Ctx) {
 					continue
 				}
 				abs, _ := filepath.Abs(path)
-				ans, err := d.Ask(fmt.Sprintf("file.check %s %d", abs, cfg.MaxRows))
+				answers, err := d.AskMany([]string{fmt.Sprintf("file.check %s %d", abs, cfg.MaxRows), "file.dump " + abs})
 				os.Remove(path)
 				if err != nil {
 					ctx.Fail("L2", "driver-error", err.Error(), nil)
 					return
 				}
+				ans, dump := answers[0], answers[1]
 				ctx.Hist("mode", mode)
 				switch {
 				case strings.HasPrefix(ans, "ok "):
@@ -123,6 +141,13 @@ func RunC02(ctx *core.Ctx) {
 					multi := !strings.Contains(sum, "rg=1 ") && !strings.Contains(sum, "rg=0 ")
 					var chunks, data int
 					fmt.Sscanf(sum[strings.Index(sum, "chunks="):], "chunks=%d data=%d", &chunks, &data)
+					if i := strings.Index(sum, "decoded="); i >= 0 {
+						var decoded, capped int
+						fmt.Sscanf(sum[i:], "decoded=%d capped=%d", &decoded, &capped)
+						ctx.HistN("data-pages", "value-decoded (none/snappy)", int64(decoded))
+						ctx.HistN("data-pages", "structural only (other codec)", int64(data-decoded-capped))
+						ctx.HistN("data-pages", "capped", int64(capped))
+					}
 					ctx.Case(e.Name+desc+mode+fmt.Sprint(k, n), multi || data > chunks)
 					if k == 0 {
 						ctx.Sample(map[string]any{"type": e.Name, "config": desc, "mode": mode, "rows": n, "spec_reader": sum})
@@ -152,6 +177,7 @@ func RunC02(ctx *core.Ctx) {
 					detail["answer"] = ans
 					ctx.Fail("L1", "unparsable mode="+mode+": "+c02Class(ans), "the spec reader cannot parse the file: "+ans, detail)
 				}
+				c02Values(ctx, e, rows, file, mode, strings.HasPrefix(ans, "ok "), dump, detail)
 			}
 		}(e)
 	}
@@ -209,4 +235,205 @@ func c02Write(e *gen.Entry, rows reflect.Value, mode string, opts []parquet.Writ
 		err = e.WriteGenericBuffer(&buf, rows.Interface(), batches, opts...)
 	}
 	return buf.Bytes(), err
+}
+
+var c02CodecNames = map[int]string{0: "none", 1: "snappy", 2: "gzip", 3: "lzo", 4: "brotli", 5: "lz4", 6: "zstd", 7: "lz4raw"}
+var c02EncNames = map[int]string{0: "plain", 2: "plaindict", 3: "rle", 4: "bitpacked", 5: "delta", 6: "deltalen", 7: "deltabytes", 8: "rledict", 9: "split"}
+
+// c02ColumnInfo: per leaf column, "codec=<..> enc=<sorted set> type=<physical>" read from the
+// file's own metadata (all row groups); used for the coverage histograms only, never as oracle.
+func c02ColumnInfo(file []byte, ncol int) []string {
+	out := make([]string, ncol)
+	f, err := parquet.OpenFile(bytes.NewReader(file), int64(len(file)))
+	if err != nil {
+		return out
+	}
+	type acc struct {
+		codecs, encs map[int]bool
+		typ          string
+	}
+	accs := make([]acc, ncol)
+	for _, rg := range f.Metadata().RowGroups {
+		for i, c := range rg.Columns {
+			if i >= ncol {
+				break
+			}
+			if accs[i].codecs == nil {
+				accs[i] = acc{map[int]bool{}, map[int]bool{}, strings.ToLower(c.MetaData.Type.String())}
+			}
+			accs[i].codecs[int(c.MetaData.Codec)] = true
+			for _, en := range c.MetaData.Encoding {
+				accs[i].encs[int(en)] = true
+			}
+		}
+	}
+	set := func(m map[int]bool, names map[int]string) string {
+		var ks []int
+		for k := range m {
+			ks = append(ks, k)
+		}
+		sort.Ints(ks)
+		var ss []string
+		for _, k := range ks {
+			if n, ok := names[k]; ok {
+				ss = append(ss, n)
+			} else {
+				ss = append(ss, fmt.Sprint(k))
+			}
+		}
+		return strings.Join(ss, "+")
+	}
+	for i, a := range accs {
+		if a.codecs == nil {
+			out[i] = "no-chunks"
+			continue
+		}
+		out[i] = fmt.Sprintf("codec=%s enc=%s type=%s", set(a.codecs, c02CodecNames), set(a.encs, c02EncNames), a.typ)
+	}
+	return out
+}
+
+// c02Values is the value-level L1 oracle: the Dremel streams the Lean spec reader decodes from
+// the file (file.dump) against the reference shredder's streams of the rows that were written.
+func c02Values(ctx *core.Ctx, e *gen.Entry, rows reflect.Value, file []byte, mode string, checkOK bool, dump string, detail map[string]any) {
+	paths := e.Schema.Columns()
+	var sh gen.Shredder
+	for i := 0; i < rows.Len(); i++ {
+		sh.ShredRow(e.Schema, rows.Index(i))
+	}
+	expected := sh.Cols
+	if rows.Len() == 0 {
+		expected = make([][]gen.Triple, len(paths))
+	}
+	with := func(extra map[string]any) map[string]any {
+		m := map[string]any{}
+		for k, v := range detail {
+			m[k] = v
+		}
+		for k, v := range extra {
+			m[k] = v
+		}
+		return m
+	}
+	if strings.HasPrefix(dump, "err ") && strings.HasSuffix(dump, "(capped)") {
+		// a page beyond the size the list-based spec decoders are run on: structural checks only
+		ctx.Hist("values", "dump-capped")
+		return
+	}
+	if !strings.HasPrefix(dump, "ok") {
+		// a file the checker already rejected cannot be dumped either: one failure is enough
+		if checkOK {
+			ctx.Fail("L1", "values-undecodable mode="+mode+": "+c02Class(strings.TrimPrefix(dump, "err ")), "file.check accepts the file but file.dump cannot decode it: "+dump, with(map[string]any{"dump_answer": dump}))
+		}
+		ctx.Hist("values", "dump-error")
+		return
+	}
+	body := strings.TrimPrefix(strings.TrimPrefix(dump, "ok"), " ")
+	got := strings.Split(body, " ; ")
+	if len(got) != len(paths) || len(expected) != len(paths) {
+		ctx.Fail("L1", "values-differ mode="+mode+" column-count", fmt.Sprintf("the spec reader sees %d leaf columns, the schema has %d, the reference shredder %d", len(got), len(paths), len(expected)), with(nil))
+		return
+	}
+	info := c02ColumnInfo(file, len(paths))
+	for ci, g := range got {
+		if g == "?" {
+			ctx.Hist("values-skipped", info[ci])
+			ctx.Hist("values", "column-skipped")
+			continue
+		}
+		ctx.Hist("values-compared", info[ci])
+		ctx.Hist("values", "column-compared")
+		var ents []string
+		if g != "" {
+			ents = strings.Split(g, " ")
+		}
+		exp := expected[ci]
+		n := len(ents)
+		if len(exp) < n {
+			n = len(exp)
+		}
+		pos, a, b := -1, "", ""
+		for i := 0; i < n; i++ {
+			if x := exp[i].String(); x != ents[i] {
+				pos, a, b = i, x, ents[i]
+				break
+			}
+		}
+		if pos < 0 && len(exp) != len(ents) {
+			pos, a, b = n, "<end>", "<end>"
+			if n < len(exp) {
+				a = exp[n].String()
+			} else {
+				b = ents[n]
+			}
+		}
+		if pos < 0 {
+			continue
+		}
+		sig := "?"
+		if lc, ok := e.Schema.Lookup(paths[ci]...); ok {
+			sig = fmt.Sprintf("%s rep=%d def=%d", strings.ToLower(lc.Node.Type().Kind().String()), lc.MaxRepetitionLevel, lc.MaxDefinitionLevel)
+		}
+		ctx.Fail("L1", "values-differ mode="+mode+" col="+sig,
+			fmt.Sprintf("column %d (%s): entry %d written as %s, the spec reader decodes %s (streams: %d written, %d decoded)", ci, strings.Join(paths[ci], "."), pos, a, b, len(exp), len(ents)),
+			with(map[string]any{"column_index": ci, "column_path": strings.Join(paths[ci], "."), "column_storage": info[ci], "position": pos, "written": a, "decoded": b, "written_entries": len(exp), "decoded_entries": len(ents)}))
+	}
+}
+
+// c02Corpus replays one `c02-values` case: `file <hex of a parquet file>` must pass file.check and
+// file.dump must answer the `dump` line. Files of other formats are left to other sub-checks.
+func c02Corpus(ctx *core.Ctx, d interface {
+	AskMany([]string) ([]string, error)
+}, casePath, tmp string) {
+	raw, err := os.ReadFile(casePath)
+	if err != nil || !strings.HasPrefix(string(raw), "c02-values ") {
+		return
+	}
+	var fileHex, want string
+	for _, l := range strings.Split(string(raw), "\n") {
+		switch {
+		case strings.HasPrefix(l, "file "):
+			fileHex = strings.TrimSpace(l[5:])
+		case strings.HasPrefix(l, "dump "):
+			want = l[5:]
+		}
+	}
+	name := filepath.Base(casePath)
+	file, err := hex.DecodeString(fileHex)
+	if err != nil || want == "" {
+		ctx.Fail("L2", "corpus-case-unreadable", "corpus case "+name+" is not a c02-values case", nil)
+		return
+	}
+	path := filepath.Join(tmp, name+".parquet")
+	if err := os.WriteFile(path, file, 0o644); err != nil {
+		ctx.Fail("L2", "tmp-write", err.Error(), nil)
+		return
+	}
+	defer os.Remove(path)
+	abs, _ := filepath.Abs(path)
+	answers, err := d.AskMany([]string{"file.check " + abs + " 0", "file.dump " + abs})
+	if err != nil {
+		ctx.Fail("L2", "driver-error", err.Error(), nil)
+		return
+	}
+	ctx.Case("corpus "+name, true)
+	ctx.Hist("mode", "corpus")
+	if !strings.HasPrefix(answers[0], "ok ") {
+		ctx.Fail("L2", "corpus-file-rejected: "+c02Class(answers[0]), "the spec reader rejects a recorded file it accepted when the case was recorded: "+answers[0], map[string]any{"case": name})
+	}
+	if answers[1] != want {
+		got, exp := strings.Split(answers[1], " "), strings.Split(want, " ")
+		pos := 0
+		for pos < len(got) && pos < len(exp) && got[pos] == exp[pos] {
+			pos++
+		}
+		a, b := "<end>", "<end>"
+		if pos < len(exp) {
+			a = exp[pos]
+		}
+		if pos < len(got) {
+			b = got[pos]
+		}
+		ctx.Fail("L2", "corpus-dump-differs", fmt.Sprintf("file.dump of a recorded file differs from the recorded hand-computed streams at token %d: expected %s got %s", pos, a, b), map[string]any{"case": name, "token": pos, "expected": a, "got": b})
+	}
 }
